@@ -9,7 +9,7 @@ COMMON_NOTE = ('Trusted: Lean 4.33 kernel (axioms propext, Classical.choice, Quo
 
 CHECKS = {
  'C04': dict(
-  text="Lean 4 theorems (all values, unbounded nesting): Comparable's < is irreflexive, asymmetric, transitive, total, its incomparability is ==, derived operators consistent, None < numbers < rest, bytes < text, element-wise sequences. The model is tied to the source by a translator that regenerates the decision ladder from petl/comparison.py on every run (bridge theorems re-proved) and by exhaustive pair comparison of the real Comparable against the model over a 66-value universe plus random nested values; users of the ordering (sort, issorted, selectlt..ge, join) are checked against the same relation.",
+  text="Lean 4 theorems (all values, unbounded nesting): Comparable's < is irreflexive, asymmetric, transitive, total, its incomparability is ==, derived operators consistent, None < numbers < rest, bytes < text, element-wise sequences. The model is tied to the source by a translator that regenerates the decision ladder from petl/comparison.py on every run (bridge theorems re-proved) and by exhaustive pair comparison of the real Comparable against the model over a 66-value universe plus random nested values; users of the ordering (sort, issorted, selectlt..ge, join) are checked against the same relation. Also on the real code: ties in chunked sorts and mergesort never fall back to native row comparison; chunked sorts in both directions incl. the pass served from the chunk-file cache; a 120-row mixed-type sort in 60 chunks.",
   note="Also trusted: translators/ladder.py, Gen.nativeOf/pyTypeName (CPython native < within a kind, TypeError across kinds). NaN and aware datetimes outside the domain.",
   technique="Lean 4 proof (mutual structural induction) + AST translator with re-proved bridge + differential correspondence",
   ref="DESIGN.md section 3, C04"),
